@@ -23,6 +23,7 @@ pub mod c17;
 pub mod c18;
 pub mod c19;
 pub mod c20;
+pub mod funcs;
 pub mod guards;
 pub mod quotes;
 pub mod registry;
